@@ -497,7 +497,8 @@ def g_slice(g: G) -> dict[str, Any]:
 
 
 def g_concat(g: G) -> dict[str, Any]:
-    left: Any = g.t_small() if g.p(0.2) else g.nested(G.item)
+    r = g.r.random()
+    left: Any = g.t_small() if r < 0.2 else g.one([True, False, 0, 7, 1.5, 2**64]) if r < 0.28 else g.nested(G.item)
     right = g.nested(G.scalar) if g.p(0.3) else g.lst(G.item, 5)
     return case("concat", "concat", g.form2(), left, [right])
 
@@ -515,7 +516,7 @@ def g_split_join(g: G) -> dict[str, Any]:
     if r < 8:
         parts = g.lst(lambda h: h.text(WORD_ALPHA, 4), 6)
         return case("split-join", "join", g.form2(), parts, [g.text(SEP_ALPHA, 2, 1)])
-    parts = g.lst(lambda h: h.t_small() if h.p(0.5) else h.ints(), 6)
+    parts = g.lst(G.scalar, 6)
     return case("split-join", "join", g.form2(), parts, [g.t_small()] if g.p(0.75) else [])
 
 
@@ -570,7 +571,8 @@ def g_affix(g: G) -> dict[str, Any]:
         arg = g.one([True, False, None])
     else:
         arg = g.lst(lambda h: h.int(-30, 30) if h.p(0.5) else h.t_small(), 3)
-    return case("str-def", g.one(("append", "prepend")), g.form2(), g.t_any(), [arg])
+    left: Any = g.scalar() if g.p(0.2) else g.t_any()
+    return case("str-def", g.one(("append", "prepend")), g.form2(), left, [arg])
 
 
 def g_replace(g: G) -> dict[str, Any]:
@@ -694,6 +696,8 @@ def g_round(g: G) -> dict[str, Any]:
     args: list[Any] = []
     if k > 2:
         d = g.int(0, 8)
+        if M.num_kind(left) == "float" and g.p(0.08):
+            d = g.int(-3, -1)
         args.append(str(d) if k == 9 else d)
     return case("round", "round", g.form2(), left, args)
 
@@ -716,6 +720,19 @@ def build(raw: bytes) -> dict[str, Any]:
 
 SELECTORS = ("where", "reject", "find", "find_index", "has")
 
+# minimal input per known-defect shape (also the deterministic part of every run)
+WITNESSES = {
+    "truncate-short-num": case("str-def", "truncate", "tmpl", "hello", [2]),
+    "truncate-len-eq-num": case("str-def", "truncate", "tmpl", "hello", [5]),
+    "truncatewords-fewer-ws": case("str-def", "truncatewords", "tmpl", "a  b", [5]),
+    "replace-last-at-start": case("str-def", "replace_last", "tmpl", "abc", ["a", "x"]),
+    "compact-key-missing": case("compact", "compact", "key", [{"k": "x"}, {}], ["k"]),
+    "bool-int-eq": case("select", "where", "keyval", [{"k": True}, {"k": 1}], ["k", 1]),
+    "where-zero-falsy": case("select", "where", "key", [{"k": 0}], ["k"]),
+    "append-nonstring-arg": case("str-def", "append", "tmpl", "x", [True]),
+    "reverse-string": case("reverse", "reverse", "tmpl", "abc", []),
+}
+
 
 # --------------------------------------------------------------------------- known-defect shapes
 
@@ -723,6 +740,8 @@ FLAGS = (
     "truncate-short-num", "truncate-len-eq-num", "truncatewords-fewer-ws", "replace-last-at-start",
     "compact-key-missing", "bool-int-eq", "where-zero-falsy", "append-nonstring-arg", "reverse-string",
 )
+
+
 def _zero_num(v: Any) -> bool:
     return M.is_num(v) and v == 0
 
@@ -796,9 +815,10 @@ class C19(Prop):
         "stripped edge is whitespace only by Unicode's definition the clause is skipped",
         "upcase/downcase/capitalize are demanded per character (c.upper()/c.lower()); strings whose case "
         "mapping is context or title-case dependent (final sigma, digraph title case) are skipped",
-        "truncatewords with a word count equal to num keeps the ellipsis (literal reading of 'fewer than'); "
-        "truncate with len == num and truncate with num < len(ellipsis) are demanded as 'unchanged' and "
-        "'ellipsis only' (flags truncate-len-eq-num / truncate-short-num)",
+        "truncatewords with a word count equal to num may keep the ellipsis (literal reading of 'fewer than') or "
+        "return the input unchanged (reference implementation): both accepted; truncate with len == num and "
+        "truncate with num < len(ellipsis) are demanded as 'unchanged' and 'ellipsis only' (flags "
+        "truncate-len-eq-num / truncate-short-num)",
         "plus/minus/times/sum/float modulo must return the float nearest to the exact decimal result computed on "
         "the decimal spellings (repr of a float, text of a numeric string) whenever that result (and every "
         "partial sum) has <= 28 significant digits, else agree to 1e-15 relative; divided_by with a float operand "
@@ -807,6 +827,12 @@ class C19(Prop):
         ">= 4 ulp away from a tie; numeric strings carry <= 15 significant digits when not integers",
         "Liquid equality for the where/reject/find/has/uniq definitions is the language's `==` on scalars "
         "(true != 1, 1 == 1.0)",
+        "append/prepend: 'coerced to a string' means the text the value renders as ({{ true }} -> true, nil -> '', "
+        "arrays concatenated), which is what prepend does; escape is only required to satisfy "
+        "html.unescape(escape(s)) = s and to leave no raw < > & (the doc example spells ' as &#39;, the filter "
+        "emits &#x27;: not demanded); url_encode must leave no RFC 3986 reserved character or space unescaped",
+        "the generator index, size and PRNG seed of a case are one 8-byte Hypothesis draw; the case content is "
+        "produced by a private PRNG from that draw (15x cheaper than drawing each element, uniform over laws)",
     ]
     batch = 400
 
@@ -820,7 +846,8 @@ class C19(Prop):
         return st.binary(min_size=8, max_size=8).map(build)
 
     def enumerate(self, tier: str, disabled: frozenset[str]):
-        return ()
+        for flag in FLAGS:
+            yield WITNESSES[flag]
 
     def sample(self, case: Any) -> Any:
         return {"law": case["law"], "filter": case["filter"], "form": case["form"],
@@ -1097,8 +1124,9 @@ class C19(Prop):
 
     def _law_concat(self, c: dict[str, Any], res: Result, run: Run) -> None:
         form, left, args = c["form"], c["left"], c["args"]
-        head = list(left) if isinstance(left, str) else M.flatten(left)
-        res.nontrivial = len(head) >= 1 and len(args[0]) >= 1 and (isinstance(left, str) or len(head) != len(left) or head == args[0])
+        head = list(left) if isinstance(left, str) else M.flatten(left) if isinstance(left, list) else [left]
+        res.nontrivial = len(head) >= 1 and len(args[0]) >= 1 and (
+            not isinstance(left, list) or len(head) != len(left) or head == args[0])
         self._expect(res, c, "concatenation definition", run.apply(form, "concat", left, args), head + args[0])
 
     def _law_split_join(self, c: dict[str, Any], res: Result, run: Run) -> None:
@@ -1194,7 +1222,7 @@ class C19(Prop):
                 res.labels.append("str-def:unicode-space-skip")
                 return
         elif flt in ("append", "prepend"):
-            a = M.liquid_str(args[0])
+            a, s = M.liquid_str(args[0]), M.liquid_str(s)
             want = s + a if flt == "append" else a + s
             res.nontrivial = bool(s) and bool(a)
         elif flt in ("replace", "replace_first", "replace_last", "remove", "remove_first", "remove_last"):
@@ -1228,11 +1256,18 @@ class C19(Prop):
             if any(ch.isspace() and ch not in M.ASCII_WS for ch in s):
                 res.labels.append("str-def:unicode-space-skip")
                 return
+            res.nontrivial = len(words) > num
             if len(words) < num:
                 want = s
+            elif len(words) == num:
+                # docs: 'fewer than' -> unchanged, otherwise truncated with the ellipsis appended; the
+                # reference implementation leaves an exact fit unchanged.  Either is accepted.
+                out = run.apply(form, flt, s, args)
+                if out not in (("ok", s), ("ok", " ".join(words) + end)):
+                    self._bad(res, c, "truncatewords definition (exact fit)", f"got {out}")
+                return
             else:
                 want = " ".join(words[:num]) + end
-            res.nontrivial = len(words) > num
         self._expect(res, c, f"{flt} definition", run.apply(form, flt, s, args), want)
 
     # ------------------------------------------------------------------ arithmetic
@@ -1369,6 +1404,9 @@ class C19(Prop):
         out = run.apply(form, "round", left, args)
         if M.num_kind(left) == "int":
             self._int_result(res, c, "round of an integer", out, int(left))
+            return
+        if digits < 0:
+            self._int_result(res, c, "negative digits give 0 (CTS)", out, 0)
             return
         sp = M.spelling(left)
         scaled = M.exact(left) * 10**digits
